@@ -271,6 +271,14 @@ func CPValue(r *R, typ uint16) abs.HB {
 	return Data(r, 0)
 }
 
+// dupIdx picks which earlier element (0..i-1) is repeated: the immediately preceding one half of the time
+func dupIdx(r *R, i int) int {
+	if r.Bool() {
+		return i - 1
+	}
+	return r.Intn(i)
+}
+
 func Header(r *R) *abs.Msg {
 	m := &abs.Msg{}
 	switch r.Intn(6) {
@@ -349,7 +357,7 @@ func Proposal(r *R) abs.Proposal {
 	}
 	for i := 0; i < n; i++ {
 		if i > 0 && r.Chance(1, 8) {
-			p.Transforms = append(p.Transforms, p.Transforms[r.Intn(i)]) // the same transform offered again
+			p.Transforms = append(p.Transforms, p.Transforms[dupIdx(r, i)]) // the same transform offered again
 			continue
 		}
 		p.Transforms = append(p.Transforms, Transform(r, uint8(1+r.Intn(5))))
@@ -372,7 +380,7 @@ func SA(r *R) abs.Payload {
 	}
 	for i := 0; i < n; i++ {
 		if i > 0 && r.Chance(1, 8) {
-			sa.Proposals = append(sa.Proposals, sa.Proposals[r.Intn(i)]) // an identical proposal again
+			sa.Proposals = append(sa.Proposals, sa.Proposals[dupIdx(r, i)]) // an identical proposal again
 			continue
 		}
 		sa.Proposals = append(sa.Proposals, Proposal(r))
@@ -403,7 +411,7 @@ func TS(r *R, kind uint8) abs.Payload {
 	}
 	for i := 0; i < n; i++ {
 		if i > 0 && r.Chance(1, 6) {
-			ts.Sel = append(ts.Sel, ts.Sel[r.Intn(i)]) // an identical selector again
+			ts.Sel = append(ts.Sel, ts.Sel[dupIdx(r, i)]) // an identical selector again
 			continue
 		}
 		ts.Sel = append(ts.Sel, Selector(r))
@@ -436,7 +444,7 @@ func CP(r *R) abs.Payload {
 			a.Value = Data(r, 0)
 		}
 		if i > 0 && r.Chance(1, 6) {
-			a = c.Attrs[r.Intn(i)] // the same attribute (type and value) again
+			a = c.Attrs[dupIdx(r, i)] // the same attribute (type and value) again
 		}
 		c.Attrs = append(c.Attrs, a)
 	}
@@ -470,7 +478,7 @@ func Delete(r *R) abs.Payload {
 		d.Num = uint16(n)
 		for i := 0; i < n; i++ {
 			if i > 0 && r.Chance(1, 6) {
-				d.SPIs = append(d.SPIs, d.SPIs[r.Intn(i)])
+				d.SPIs = append(d.SPIs, d.SPIs[dupIdx(r, i)])
 				continue
 			}
 			d.SPIs = append(d.SPIs, r.U32())
@@ -698,7 +706,7 @@ func Msg(r *R, o Opt) *abs.Msg {
 				continue
 			}
 			if i > 0 && r.Chance(1, 12) {
-				m.Payloads = append(m.Payloads, m.Payloads[r.Intn(i)]) // the same payload twice (e.g. two identical notifications)
+				m.Payloads = append(m.Payloads, m.Payloads[dupIdx(r, i)]) // the same payload twice (e.g. two identical notifications)
 				continue
 			}
 			m.Payloads = append(m.Payloads, Payload(r, allKinds[r.Intn(len(allKinds))]))
